@@ -125,7 +125,7 @@ def store_rules(facts, rep):
                         "the value stored into the shared data_start depends on %s" % sorted(leaves))
         # stored only after the local header was validated
         fs = dominating_facts(f, ex, bi)
-        sig = any(x[0] == "Eq" and any(y[0] == "named" and y[1].endswith("LOCAL_FILE_HEADER_SIGNATURE") for y in walk(x[2])) for x in fs)
+        sig = any(x[0] == "Eq" and any(y[0] == "const" and y[2] == 0x04034b50 for y in walk(x[2])) for x in fs)
         ok &= rep.check(sig, rule, "store-after-signature-check", where(f, t["span"]), "the shared value is written only after this handle verified the local header signature",
                         "data_start is published to the other clones before the local header signature is verified: a failed open on one handle poisons its siblings")
     lp = sorted({f.path for f, _, _ in loads})
